@@ -30,6 +30,27 @@ class MirError(Exception):
     pass
 
 
+def cvc5_verdict(smt2_text, timeout_s=20):
+    """second opinion on one query: the SMT-LIB2 text z3 decided is handed to the cvc5 binary"""
+    import subprocess
+    import tempfile
+    with tempfile.NamedTemporaryFile("w", suffix=".smt2", delete=False) as f:
+        f.write("(set-logic ALL)\n" + smt2_text.replace("(set-info :status sat)", "").replace("(set-info :status unsat)", ""))
+        path = f.name
+    try:
+        p = subprocess.run(["cvc5", "--lang", "smt2", "--tlimit", str(timeout_s * 1000), path], stdout=subprocess.PIPE, stderr=subprocess.PIPE,
+                           text=True, timeout=timeout_s + 10)
+        out = p.stdout.strip().splitlines()
+        if "(error" in p.stdout or "(error" in p.stderr:
+            return "error"
+        return out[0] if out else "none"
+    except Exception:
+        return "timeout"
+    finally:
+        import os
+        os.unlink(path)
+
+
 # ----------------------------------------------------------------------------- parsing
 class Function:
     def __init__(self, name, header):
@@ -305,9 +326,17 @@ class Interp:
         self.solver.add(z3.Not(formula))
         r = self.solver.check()
         model = self.solver.model() if r == z3.sat else None
+        smt2 = self.solver.to_smt2() if getattr(self, "cross_check", False) else None
         self.solver.pop()
         if r == z3.unknown:
             raise MirError("solver returned unknown")
+        if smt2 is not None:
+            self.cross_checked = getattr(self, "cross_checked", 0) + 1
+            other = cvc5_verdict(smt2)
+            if other in ("sat", "unsat") and other != str(r):
+                raise MirError("solver disagreement: z3 says %s, cvc5 says %s" % (r, other))
+            if other not in ("sat", "unsat"):
+                self.cross_unknown = getattr(self, "cross_unknown", 0) + 1
         return r == z3.unsat, model
 
     # ---- place / operand evaluation
